@@ -7,7 +7,7 @@ from typing import (
     Callable,
     Collection,
     Dict,
-    Iterable,
+    List,
     Mapping,
     Optional,
     Sequence,
@@ -762,9 +762,13 @@ class Serialization:
     def _all_codecs_known(self, type_tree: SubtypeTree) -> bool:
         """Check: does every name in ``type_tree`` have a codec?"""
 
-        return type_tree.name in self.codecs and all(
-            self._all_codecs_known(subtype) for subtype in type_tree.subtypes
-        )
+        pending = [type_tree]
+        while pending:
+            tree = pending.pop()
+            if tree.name not in self.codecs:
+                return False
+            pending.extend(tree.subtypes)
+        return True
 
     @staticmethod
     def _parse_type(type_name: str) -> SubtypeTree:
@@ -783,70 +787,52 @@ class Serialization:
         """
         tokens = findall("[^<>,]+|<|>|,", type_name)
 
-        def parse(
-            tokens: Sequence[str],
-            tree: Iterable[SubtypeTree],
-        ) -> Tuple[Tuple[SubtypeTree, ...], Sequence[None]]:
-            tree = list(tree)
-            # It is an error to parse nothing
-            if len(tokens) == 0:
-                raise TypeNameError(type_name)
-            first_token, *tail = tokens
-
-            # The first token should be a name
-            if first_token in {"<", ">", ","}:
-                raise TypeNameError(type_name)
-
-            # Base case
-            if len(tail) == 0:
-                tree.append(SubtypeTree(first_token, ()))
-                return tuple(tree), []
-            next_token, *tail = tail
-
-            # No subtypes
-            if next_token == ",":
-                tree.append(SubtypeTree(first_token, ()))
-
-            # Parse subtypes
-            if next_token == "<":
-                # Extract just the subtype tokens and parse them
-                stack = ["<"]
-                subtype_tokens = list()
-                remaining_tokens = list()
-                for t in tail:
-                    if len(stack) == 0:
-                        remaining_tokens.append(t)
-                        continue
-                    if t == "<":
-                        stack.append(t)
-                    elif t == ">":
-                        stack.pop()
-                    subtype_tokens.append(t)
-                if len(stack) > 0 or subtype_tokens[-1] != ">":
+        # One pass over the tokens, without recursion: a type name may have
+        # any number of parameters and nesting levels.
+        # levels[-1] collects the finished types of the innermost open list
+        # (levels[0] is the root), open_names the names awaiting their ">".
+        levels: List[List[SubtypeTree]] = [[]]
+        open_names: List[str] = []
+        name: Optional[str] = None  # a name read, not yet known to be a leaf
+        after_group = False  # the previous token closed a parameter list
+        for token in tokens:
+            if name is None and not after_group:
+                # A type starts here: only a name will do.
+                if token in {"<", ">", ","}:
                     raise TypeNameError(type_name)
-                subtypes, remaining = parse(subtype_tokens[:-1], [])
-                # Parsing should consume all subtype tokens
-                if len(remaining) != 0:
+                name = token
+            elif token == "<":
+                if name is None:
                     raise TypeNameError(type_name)
-                tree.append(SubtypeTree(first_token, subtypes))
-                # Finish if all tokens are consumed
-                if len(remaining_tokens) == 0:
-                    return tuple(tree), []
-                next_token, *tail = remaining_tokens
-
-            # If the next token is a comma, parse next
-            if next_token == ",":
-                return parse(tail, tree)
-
-            # None of the rules match, error
+                open_names.append(name)
+                levels.append([])
+                name = None
+            elif token == ",":
+                if name is not None:
+                    levels[-1].append(SubtypeTree(name, ()))
+                    name = None
+                after_group = False
+            elif token == ">":
+                if name is not None:
+                    levels[-1].append(SubtypeTree(name, ()))
+                    name = None
+                if not open_names:
+                    raise TypeNameError(type_name)
+                subtypes = tuple(levels.pop())
+                levels[-1].append(SubtypeTree(open_names.pop(), subtypes))
+                after_group = True
+            else:
+                # A name directly after ">".
+                raise TypeNameError(type_name)
+        if name is not None:
+            levels[-1].append(SubtypeTree(name, ()))
+        elif not after_group:
+            # Nothing at all, or a list that ends in "," or "<".
             raise TypeNameError(type_name)
-
-        # There should only be one item at the root of the tree
-        try:
-            (parse_tree,) = parse(tokens, [])[0]
-        except ValueError:
+        # Every list is closed, and there is one item at the root of the tree.
+        if open_names or len(levels[0]) != 1:
             raise TypeNameError(type_name)
-        return parse_tree
+        return levels[0][0]
 
     def decode(
         self,
